@@ -198,32 +198,7 @@ func runC09(c *Ctx) {
 	}
 	c.Ob("MARKER-ATOMIC", pf+"/marker", marker.Pos(), atomic, true, "marker PutPath carries storage.PutWithAtomic(): %v", atomic)
 	// tar: the single Put of the archive
-	tarOK, tarSeen := false, false
-	for _, sf := range p.SSAFuncsOf([]*packages.Package{pkStore}) {
-		for _, f := range allSSAFuncs(sf) {
-			usesTar := false
-			for _, call := range callsIn(f) {
-				if calleeIs(staticCalleeObj(call.Call), "private/pkg/storage/storagearchive", "Tar") {
-					usesTar = true
-				}
-			}
-			if !usesTar {
-				continue
-			}
-			for _, call := range callsIn(f) {
-				if call.Call.IsInvoke() && call.Call.Method.Name() == "Put" {
-					tarSeen = true
-					if len(call.Call.Args) >= 3 && dependsOnCall(call.Call.Args[2], func(cc *ssa.CallCommon) bool { return isStorageFn(cc, "PutWithAtomic") }) {
-						tarOK = true
-					}
-					c.Ob("MARKER-ATOMIC", ssaFuncName(f)+"/tar-put", call.Pos(), tarOK, true, "the archive object is Put with PutWithAtomic(): %v", tarOK)
-				}
-			}
-		}
-	}
-	if !tarSeen {
-		c.Fail("MARKER-ATOMIC", "tar-put", token.NoPos, "no Put of the tar archive found")
-	}
+	cacheTarPutAtomic(c, "MARKER-ATOMIC", pkStore)
 	// (2) marker last + (3) marker only after success
 	isWrite := func(cc *ssa.CallCommon) bool {
 		fn := staticCalleeObj(cc)
@@ -883,4 +858,54 @@ func c09Provider(c *Ctx) {
 		c.Ob("PROVIDER", "getValuesForKeys/returns-re-read-values", as.Pos(), usedAfter, true, "the values handed back are those re-read from the store: %v", usedAfter)
 	}
 	c.Ob("PROVIDER", "getValuesForKeys/missing-after-put-is-error", reread.Pos(), okNF, true, "a key still missing after the put returns a non-nil error: %v", okNF)
+}
+
+// cacheTarPutAtomic: in tar mode a cached module is one archive object; a reader takes its presence as "the module is
+// cached", so it must become visible only in full. The function of the store that calls storagearchive.Tar must write
+// the object through a call that carries PutWithAtomic() - bucket.Put itself, or a storage helper that takes
+// ...PutOption (ForWriteObject, PutPath): whichever it is, the option list is inspected, not the callee's name.
+func cacheTarPutAtomic(c *Ctx, rule string, pkStore *packages.Package) {
+	p := c.P
+	isStorageFn := func(cc *ssa.CallCommon, name string) bool {
+		return calleeIs(staticCalleeObj(cc), "private/pkg/storage", name)
+	}
+	takesPutOptions := func(cc *ssa.CallCommon) bool {
+		sig := cc.Signature()
+		if sig == nil || !sig.Variadic() || sig.Params().Len() == 0 {
+			return false
+		}
+		sl, ok := sig.Params().At(sig.Params().Len() - 1).Type().(*types.Slice)
+		return ok && namedName(sl.Elem()) == "PutOption"
+	}
+	tarSeen := false
+	for _, sf := range p.SSAFuncsOf([]*packages.Package{pkStore}) {
+		for _, f := range allSSAFuncs(sf) {
+			usesTar := false
+			for _, call := range callsDeep(f) {
+				if calleeIs(staticCalleeObj(call.Call), "private/pkg/storage/storagearchive", "Tar") {
+					usesTar = true
+				}
+			}
+			if !usesTar {
+				continue
+			}
+			for _, call := range callsIn(f) {
+				if !takesPutOptions(call.Call) {
+					continue
+				}
+				tarSeen = true
+				opts := call.Call.Args[len(call.Call.Args)-1]
+				atomic := false
+				for _, el := range append(variadicElems(opts), opts) {
+					if dependsOnCall(el, func(cc *ssa.CallCommon) bool { return isStorageFn(cc, "PutWithAtomic") }) {
+						atomic = true
+					}
+				}
+				c.Ob(rule, ssaFuncName(f)+"/tar-put", call.Pos(), atomic, true, "the archive object is written with PutWithAtomic(): %v", atomic)
+			}
+		}
+	}
+	if !tarSeen {
+		c.Fail(rule, "tar-put", token.NoPos, "no write of the tar archive (a call taking ...PutOption in the function that calls storagearchive.Tar) found")
+	}
 }
